@@ -11,3 +11,7 @@ import OQuPyVerif.Props.C14
 import OQuPyVerif.Props.C05
 import OQuPyVerif.Props.C07
 import OQuPyVerif.Props.C20
+import OQuPyVerif.Props.C19
+import OQuPyVerif.Props.C15
+import OQuPyVerif.Props.C16
+import OQuPyVerif.Props.C17
